@@ -1,11 +1,11 @@
-(* A85.v -- Stream::decode_ascii85 of src/object.rs (after the checked_add repair, commit c049d3a),
-   branch for branch.  Definitions only.
+(* A85.v -- Stream::decode_ascii85 of src/object.rs (after the repairs c049d3a: checked_add, and efed7db:
+   NUL is skipped like the other white-space characters), branch for branch.  Definitions only.
 
    Rust:
      let input_no_eod = if input.len() >= 2 && input ends with b"~>" { input without it } else { input };
      for &ch in input_no_eod {
        if ch == b'z' { if count != 0 { return Err(Ascii85) }  output += [0,0,0,0]; continue }
-       if ch.is_ascii_whitespace() { continue }
+       if ch.is_ascii_whitespace() || ch == b'\0' { continue }
        if !(b'!'..=b'u').contains(&ch) { break }
        buffer = buffer.checked_mul(85)?;  buffer = buffer.checked_add(ch - b'!')?;  count += 1;
        if count == 5 { output += buffer.to_be_bytes(); buffer = 0; count = 0 }
@@ -47,6 +47,9 @@ Definition be_bytes (v : N) : bytes :=
 
 (* u8::is_ascii_whitespace (Rust std): space, \t, \n, form feed, \r *)
 Definition is_ascii_ws (b : byte) : bool := byte_in b [x20; x09; x0a; x0c; x0d].
+
+(* the characters the loop skips: is_ascii_whitespace() || ch == b'\0' *)
+Definition is_skipped (b : byte) : bool := is_ascii_ws b || byte_eqb b A85_WS_EXTRA.
 
 Definition in_digit_range (b : byte) : bool :=
   (N_of_byte A85_LO <=? N_of_byte b)%N && (N_of_byte b <=? N_of_byte A85_HI)%N.
@@ -94,7 +97,7 @@ Fixpoint loop (input : bytes) (buffer : N) (count : nat) : res bytes :=
       | O => emit [x00; x00; x00; x00] (loop input' buffer count)
       | _ => Err EA85
       end
-    else if is_ascii_ws ch then loop input' buffer count
+    else if is_skipped ch then loop input' buffer count
     else if negb (in_digit_range ch) then finish buffer count          (* break *)
     else match accum buffer (N_of_byte ch - N_of_byte A85_LO) with
          | None => Err EA85
